@@ -16,6 +16,10 @@ type zzOpts struct {
 	// norotate: no focus rotation (every Fill slot stays in its small class); used by the
 	// variants that isolate one optional section of a pack already rotated elsewhere.
 	norotate bool
+	// nofill: the pack stays as constructed (only the hook populates it); used to show one
+	// section in isolation when a mis-read of it would otherwise be followed by the decoding
+	// of dozens of symbolic scalars at the wrong offsets.
+	nofill bool
 	// compare replaces the field-by-field AssertCarried(b, p, q, name) (packs whose writer
 	// mutates the pack, caches, lazily decoded blobs: compared through accessors).
 	compare func(b []byte, p, q Pack, name string)
@@ -40,7 +44,9 @@ func zzPackRoundTripO(name string, mk func() Pack, registered bool, extra func(P
 		focus = zzvf.Choose(n+1) - 1
 	}
 	zzFocus = focus
-	zzvf.Fill(p, focus, zzvf.Choose(2))
+	if o == nil || !o.nofill {
+		zzvf.Fill(p, focus, zzvf.Choose(2))
+	}
 	extra(p) // fields Fill does not populate (hash maps, value maps, interfaces, nested packs)
 	if zzvf.Choose(2) == 0 { // header without kind/node
 		p.SetOKIND(0)
